@@ -9,7 +9,7 @@
 From Coq Require Import List NArith ZArith Bool Sorted Permutation.
 Import ListNotations.
 From SV Require Fmt.CmdSeq Fmt.CmdSeqProofs Fmt.ScenesImage Fmt.ScenesImageProofs Fmt.ScenesImageCfg Fmt.ScenesImageCfgProofs
-  Fmt.SmdTpl Fmt.SmdTplProofs Fmt.SmdWords Fmt.TextFields Fmt.TextFieldsProofs Fmt.ChoreoBin Fmt.ChoreoBinProofs Fmt.SceneSummary KV.KvBase KV.KvLex KV.KvSym KV.KvLexProofs.
+  Fmt.SmdTpl Fmt.SmdTplProofs Fmt.SmdWords Fmt.TextFields Fmt.TextFieldsProofs Fmt.SndStacks Fmt.SndStacksProofs Fmt.VmtQuote Fmt.VmtQuoteProofs Fmt.TextLines Fmt.TextLinesProofs Fmt.ChoreoBin Fmt.ChoreoBinProofs Fmt.SceneSummary KV.KvBase KV.KvLex KV.KvSym KV.KvLexProofs.
 
 (** * Command sequences *)
 Module CS := Fmt.CmdSeq.
@@ -231,6 +231,135 @@ Theorem c20_sndscript_stacks_crossed_refuted :
   TF.stacks_paired [([1], [10], [10]); ([2], [11], [11]); ([3], [11], [11])]%N [([1], [10]); ([2], [11]); ([3], [12])]%N = false
   /\ TF.stacks_paired [([1], [10], [10]); ([2], [11], [11]); ([3], [12], [12])]%N [([1], [10]); ([2], [11]); ([3], [12])]%N = true.
 Proof. exact TFP.stacks_crossed_refuted. Qed.
+
+(** * Soundscript operator stacks (SK := Fmt.SndStacks): Sound keeps three optional blocks behind lazy properties (reading
+    `snd.stack_start` stores an empty block when there was none).  Over the census regenerated from sndscript.py -- the
+    terms of the test that switches the version-2 keys on, and per stack block its guard and source -- for every census
+    passing [guard_okb] / [blocks_okb] (the check discharges both for today's source), every sound, any child type: *)
+Module SK := Fmt.SndStacks.
+Module SKP := Fmt.SndStacksProofs.
+
+(** what is written depends on the value only: reading the lazy properties first, in any order, changes nothing *)
+Theorem c20_sndscript_export_observer_independent : forall A g ws ts (x : SK.sound A),
+  SK.guard_okb g = true -> SK.blocks_okb ws = true ->
+  fst (SK.export g ws (SK.touches ts x)) = fst (SK.export g ws x).
+Proof. exact SKP.export_observer_independent. Qed.
+
+(** exporting the same object twice (export itself reads the lazy properties) writes the same *)
+Theorem c20_sndscript_export_again_identical : forall A g ws (x : SK.sound A),
+  SK.guard_okb g = true -> SK.blocks_okb ws = true ->
+  fst (SK.export g ws (snd (SK.export g ws x))) = fst (SK.export g ws x).
+Proof. exact SKP.export_again_identical. Qed.
+
+(** two sounds of the same value (same version-2-ness, same children; a missing stack = an empty one) are written identically *)
+Theorem c20_sndscript_export_same_value : forall A g ws (x y : SK.sound A),
+  SK.guard_okb g = true -> SK.blocks_okb ws = true -> SK.same_value x y ->
+  fst (SK.export g ws x) = fst (SK.export g ws y).
+Proof. exact SKP.export_same_value. Qed.
+
+(** the reader gives the value back, and the second generation is identical *)
+Theorem c20_sndscript_stacks_roundtrip : forall A g ws (x : SK.sound A),
+  SK.guard_okb g = true -> SK.blocks_okb ws = true ->
+  SK.same_value (SK.parse (fst (SK.export g ws x))) x.
+Proof. exact SKP.parse_export_same_value. Qed.
+Theorem c20_sndscript_stacks_second_generation : forall A g ws (x : SK.sound A),
+  SK.guard_okb g = true -> SK.blocks_okb ws = true ->
+  fst (SK.export g ws (SK.parse (fst (SK.export g ws x)))) = fst (SK.export g ws x).
+Proof. exact SKP.second_generation_identical. Qed.
+
+(** refuted: `self._stack_x is not None` in the version-2 test (a version-1 sound whose start stack was merely looked
+    at is written as version 2 and read back as another value); a test that forgets the stop stack; a block guarded by a
+    presence test *)
+Theorem c20_sndscript_presence_test_refuted :
+  SK.guard_okb SKP.presence_guard = false
+  /\ let x := SK.mkSnd (A := nat) false None None None in
+     fst (SK.export SKP.presence_guard SKP.ref_blocks (SK.touch SK.SStart x)) <> fst (SK.export SKP.presence_guard SKP.ref_blocks x)
+     /\ SK.is_v2 (SK.parse (fst (SK.export SKP.presence_guard SKP.ref_blocks (SK.touch SK.SStart x)))) <> SK.is_v2 (SK.touch SK.SStart x).
+Proof. exact SKP.presence_guard_refuted. Qed.
+Theorem c20_sndscript_forgetful_test_refuted :
+  SK.guard_okb SKP.forgetful_guard = false
+  /\ let x := SK.mkSnd false None None (Some [5]) in
+     SK.content (SK.parse (fst (SK.export SKP.forgetful_guard SKP.ref_blocks x))) SK.SStop <> SK.content x SK.SStop.
+Proof. exact SKP.forgetful_guard_refuted. Qed.
+Theorem c20_sndscript_presence_block_refuted :
+  SK.blocks_okb SKP.presence_blocks = false
+  /\ let x := SK.mkSnd (A := nat) true None None None in
+     fst (SK.export SKP.ref_guard SKP.presence_blocks (SK.touch SK.SStart x)) <> fst (SK.export SKP.ref_guard SKP.presence_blocks x).
+Proof. exact SKP.presence_block_refuted. Qed.
+
+(** * VMT parameters (VQ := Fmt.VmtQuote): `\t<name> <value>\n`, each quoted on demand by vmt._needs_quotes; the decision table
+    is regenerated from vmt.py / tokenizer.py.  Over the bare-string mode of the tokenizer model (the same loop for every
+    configuration without the colon / plus operators), for every table passing [nq_okb] (the check discharges it), on any line
+    but the first (the shader line comes first): *)
+Module VQ := Fmt.VmtQuote.
+Module VQP := Fmt.VmtQuoteProofs.
+
+(** a string the decision lets through unquoted is read back as exactly that string *)
+Theorem c20_vmt_unquoted_reads_back : forall E cfg l v, VQ.nq_okb cfg = true -> l <> 1%N -> VQ.needs_quotes cfg v = false ->
+  KvLexProofs.lexes E l (v ++ [KvBase.SP]) [KvBase.TStr v] l.
+Proof. exact VQP.bare_reads_back. Qed.
+
+(** the whole parameter line is read back as name, value, newline: any name / value the decision lets through, and quoted ones
+    without quote, backslash or line break (partial: the model un-escapes inside quotes, Material.parse reads with escapes
+    disabled, so for the real reader a backslash inside quotes is fine too -- searched, not proved) *)
+Theorem c20_vmt_param_line_reads_back_partial : forall E cfg l name value, VQ.nq_okb cfg = true -> l <> 1%N ->
+  VQP.value_ok cfg name = true -> VQP.value_ok cfg value = true ->
+  KvLexProofs.lexes E l (VQ.param_line cfg name value) [KvBase.TStr name; KvBase.TStr value; KvBase.TNL] (l + 1)%N.
+Proof. exact VQP.param_line_reads_back. Qed.
+
+(** refuted: the decision of the pinned tree (no test for a leading '/': `//x` written bare is a comment); a delimiter missing
+    from the table (a value with a comma is split) *)
+Theorem c20_vmt_leading_slash_refuted :
+  VQ.nq_okb VQP.no_slash_nq = false
+  /\ fst (KvLex.lex_all TFP.ex_escfg ([97; 10]%N ++ VQ.param_line VQP.no_slash_nq [36; 98]%N [47; 47; 120]%N))
+     = [KvBase.TStr [97%N]; KvBase.TNL; KvBase.TStr [36; 98]%N; KvBase.TNL].
+Proof. exact VQP.leading_slash_refuted. Qed.
+Theorem c20_vmt_missing_delimiter_refuted :
+  VQ.nq_okb VQP.no_comma_nq = false
+  /\ fst (KvLex.lex_all TFP.ex_escfg ([97; 10]%N ++ VQ.param_line VQP.no_comma_nq [36; 98]%N [49; 44; 50]%N))
+     <> [KvBase.TStr [97%N]; KvBase.TNL; KvBase.TStr [36; 98]%N; KvBase.TStr [49; 44; 50]%N; KvBase.TNL].
+Proof. exact VQP.missing_delimiter_refuted. Qed.
+
+(** the whole file of a material that has parameters only (no sub-blocks, no proxies; the frame `<shader>\n\t{\n` ... `\t}\n` is an
+    obligation on Material.export, the file text is compared with the exporter on every run): for a shader name that is a bare
+    string and parameters as above, the tokenizer model reads the file without error as exactly shader, `{`, the (name, value)
+    pairs in order, `}` (partial as above: quoted strings without backslash; what Material.parse builds from the tokens is searched) *)
+Theorem c20_vmt_file_reads_back_partial : forall E cfg shader ps, VQ.nq_okb cfg = true -> VQP.shader_ok shader = true ->
+  VQP.params_ok cfg ps = true -> KvLex.lex_all E (VQ.vmt_file cfg shader ps) = (VQ.vmt_tokens shader ps, None).
+Proof. exact VQP.vmt_file_reads_back. Qed.
+
+(** hence the written file determines the material: two different parameter-only materials never produce the same file *)
+Theorem c20_vmt_file_determines_material : forall cfg s1 p1 s2 p2, VQ.nq_okb cfg = true ->
+  VQP.shader_ok s1 = true -> VQP.params_ok cfg p1 = true -> VQP.shader_ok s2 = true -> VQP.params_ok cfg p2 = true ->
+  VQ.vmt_file cfg s1 p1 = VQ.vmt_file cfg s2 p2 -> s1 = s2 /\ p1 = p2.
+Proof. exact VQP.vmt_file_determines_material. Qed.
+
+(** refuted: a shader name with a space (written as it is) is not representable *)
+Theorem c20_vmt_shader_with_space_refuted :
+  VQP.shader_ok [97; 32; 98]%N = false
+  /\ fst (KvLex.lex_all TFP.ex_escfg (VQ.vmt_file VQP.ref_nq [97; 32; 98]%N [])) <> VQ.vmt_tokens [97; 32; 98]%N [].
+Proof. exact VQP.shader_with_space_refuted. Qed.
+
+(** * Whole written lines (TL := Fmt.TextLines): what one `file.write(template)` of a text writer produces, as a list of
+    self-delimiting items regenerated from the source (every template of sndscript.Sound.export, `snd_lines`, none unstructured;
+    the templates of the choreo export_text methods that are whole items, `cho_lines`, with the run-time indent as the item IInd;
+    the check discharges [items_ok] for each).  For every escape table with [esc_ok], every
+    structured line, every line number and ALL field values within [vals_ok] (one value per field; a raw quoted field without
+    quote / backslash / line break, a bare field a bare word, an escaped quoted field anything): the tokenizer model reads the
+    written text back as exactly the keywords, braces, newlines and field values, in order *)
+Module TL := Fmt.TextLines.
+Module TLP := Fmt.TextLinesProofs.
+Theorem c20_text_line_reads_back : forall E ind, KvSym.esc_ok E = true -> KvSym.ws_only ind = true ->
+  forall its, TL.items_ok its = true -> forall vs l, TL.vals_ok its vs = true ->
+  KvLexProofs.lexes E l (TL.render E ind its vs) (TL.toks its vs) (TL.lines its l).
+Proof. exact TLP.items_lex. Qed.
+Theorem c20_text_lines_of_a_writer_read_back : forall E ind ls, KvSym.esc_ok E = true -> KvSym.ws_only ind = true ->
+  forallb TL.items_ok ls = true -> forall its vs l, In its ls -> TL.vals_ok its vs = true ->
+  KvLexProofs.lexes E l (TL.render E ind its vs) (TL.toks its vs) (TL.lines its l).
+Proof. exact TLP.lines_lex. Qed.
+(** the unquoted low/high pair `95, 110` (the repaired soundscript defect) is not a bare word: as a bare field it is outside [vals_ok] *)
+Theorem c20_text_bare_pair_is_not_a_word_refuted : TL.word_ok [57; 53; 44; 32; 49; 49; 48]%N = false.
+Proof. exact TLP.bare_pair_not_a_word. Qed.
 
 (** * Binary choreo scenes (BVCD), at the level of raw field values (float32 as bit pattern, quantised values as the
     byte written, strings as pool indexes).  Fmt/ChoreoBin.v describes each class by a layout; the check discharges,
